@@ -1,6 +1,11 @@
 package main
 
-import "golang.org/x/tools/go/ssa"
+import (
+	"go/token"
+	"strings"
+
+	"golang.org/x/tools/go/ssa"
+)
 
 func reqParamEntries(w *World) []*ssa.Function {
 	var out []*ssa.Function
@@ -38,9 +43,12 @@ func init() {
 			Assumptions: []string{"encoding/json, net.ParseIP, regexp, strconv behave as documented"},
 			Trusted:     []string{"go/packages", "go/types", "go/ssa", "encoding/json"},
 			RuleDoc: map[string]string{
-				"R2.policy": "namespace-policy set {NONS, NSOK}; force-command token positions and length guards",
-				"R4.bounds": "index/slice/assertion obligations from NewReqParam down",
-				"R4.nil":    "json-null / use-before-error-check obligations from NewReqParam down",
+				"R1.fields":  "source and validity must-facts of every field of the parameter literal; independence from the client message",
+				"R3.transid": "transaction id = hex of 5 crypto/rand bytes",
+				"R5.version": "version parser: 16-bit major/minor from the two sides of the dot, in order",
+				"R2.policy":  "namespace-policy set {NONS, NSOK}; force-command token positions and length guards",
+				"R4.bounds":  "index/slice/assertion obligations from NewReqParam down",
+				"R4.nil":     "json-null / use-before-error-check obligations from NewReqParam down",
 			},
 		},
 		Run: runC14,
@@ -54,4 +62,222 @@ func runC14(c *Ctx) {
 	}
 	runPanicRules(c, "R4", reqParamEntries(c.w), 20)
 	tablesC14(c)
+	c14Fields(c)
+}
+
+// c14Fields: R1 (field sources of the parameter literal), R3 (transaction id), R5 (version parser).
+func c14Fields(c *Ctx) {
+	w := c.w
+	fn := w.Func("csr", "NewReqParam")
+	c.Saw(fn)
+	f := w.Facts(fn)
+	allocs := allocsOf(fn, "csr.ReqParam")
+	if len(allocs) != 1 {
+		c.Und("R1.fields", "NewReqParam|one parameter literal", w.FnPos(fn), "expected exactly one ReqParam literal, found "+itoa(len(allocs)))
+		return
+	}
+	lit := allocs[0]
+	// it is the successful result
+	for _, r := range w.MayBeNilReturns(fn) {
+		c.Check(r.Results[0] == ssa.Value(lit), "R1.fields", "NewReqParam|returns the literal", w.Pos(r.Pos()), "the checked literal", "the successful result is not the literal examined")
+	}
+	fs := FieldStores(fn, lit)
+	env := func(name string) string { return `call<dyn p0>(const("` + name + `"))` }
+	attrs := "call<" + RepoMod + "/message.Unmarshal>(" + env("SSH_ORIGINAL_COMMAND") + ")#0"
+	force := "call<" + RepoMod + "/csr.parseForceCommand>(call<dyn p1>())"
+	want := map[string]string{
+		"LogName":         env("LOGNAME"),
+		"ClientIP":        "call<strings.Split>(" + env("SSH_CONNECTION") + `,const(" "))[const(0)]`,
+		"NamespacePolicy": force + "#0",
+		"HandlerName":     force + "#1",
+		"TransID":         "call<" + RepoMod + "/csr/transid.Generate>()",
+		"ReqUser":         attrs + ".Username",
+		"ReqHost":         attrs + ".Hostname",
+		"SignatureAlgo":   attrs + ".SignatureAlgo",
+		"Attrs":           attrs,
+	}
+	for fld, exp := range want {
+		vs := fs[fld]
+		ok := len(vs) == 1 && w.Expr(vs[0]) == exp
+		got := "unset"
+		if len(vs) > 0 {
+			got = shortName(w.Expr(vs[0]))
+		}
+		c.Check(ok, "R1.fields", "NewReqParam|"+fld, w.Pos(lit.Pos()), shortName(exp), fld+" is "+got+", must be "+shortName(exp))
+	}
+	// nothing decoded from the client message flows into the server-decided fields
+	for _, fld := range []string{"LogName", "ClientIP", "NamespacePolicy", "HandlerName", "TransID"} {
+		for _, v := range fs[fld] {
+			bad := ""
+			for o := range w.Origins(v) {
+				if strings.Contains(o, "message.Unmarshal") || strings.Contains(o, "SSH_ORIGINAL_COMMAND") {
+					bad = o
+				}
+			}
+			c.Check(bad == "", "R1.fields", "NewReqParam|"+fld+" independent of the client message", w.Pos(lit.Pos()), "no origin in the decoded client message", fld+" depends on the client-supplied message ("+bad+")")
+		}
+	}
+	// validity facts at the literal
+	b := lit.Block()
+	okLog := f.Any(b, func(l Lit) bool {
+		bin, ok := l.V.(*ssa.BinOp)
+		if !ok {
+			return false
+		}
+		k, isK := strConst(bin.Y)
+		return isK && k == "" && w.Expr(bin.X) == env("LOGNAME") && ((bin.Op == token.EQL && !l.Pol) || (bin.Op == token.NEQ && l.Pol))
+	})
+	c.Check(okLog, "R1.fields", "NewReqParam|login name non-empty", w.Pos(lit.Pos()), "must-fact LOGNAME != \"\"", "parameters can be built with an empty server-side login name")
+	okIP := f.Any(b, func(l Lit) bool {
+		y, isNil, ok := nilTest(l)
+		if !ok || isNil {
+			return false
+		}
+		cv, isCall := strip(y).(*ssa.Call)
+		return isCall && calleeName(cv) == "net.ParseIP" && w.Expr(cv.Call.Args[0]) == want["ClientIP"]
+	})
+	c.Check(okIP, "R1.fields", "NewReqParam|client IP syntactically valid", w.Pos(lit.Pos()), "must-fact net.ParseIP(clientIP) != nil", "parameters can be built with a client IP that did not parse")
+	for _, call := range callsIn(fn) {
+		cv, ok := call.(*ssa.Call)
+		if !ok {
+			continue
+		}
+		n := calleeName(cv)
+		if strings.HasSuffix(n, "csr.parseForceCommand") || strings.HasSuffix(n, "message.Unmarshal") {
+			errIdx := cv.Call.Signature().Results().Len() - 1
+			isNil, known := f.KnownNil(b, extractOf(cv, errIdx))
+			c.Check(known && isNil, "R1.fields", "NewReqParam|"+shortName(n)+" succeeded", w.Pos(cv.Pos()), "must-fact err == nil", "parameters can be built although "+shortName(n)+" failed")
+		}
+	}
+	// client version: default when empty, else the parsed one with its error checked
+	okVer := false
+	if vs := fs["SSHClientVersion"]; len(vs) == 1 {
+		leaves := w.Leaves(vs[0], lit)
+		nDef, nParsed := 0, 0
+		for _, lf := range leaves {
+			ex := w.Expr(lf.Val)
+			switch {
+			case ex == "call<"+RepoMod+"/sshutils/version.NewDefaultVersion>()":
+				nDef++
+			case ex == "call<"+RepoMod+"/sshutils/version.Unmarshal>("+attrs+".SSHClientVersion)#0":
+				// error checked on this path
+				for l := range lf.Facts {
+					if y, isNil, ok := nilTest(l); ok && isNil {
+						if e2, ok := strip(y).(*ssa.Extract); ok && e2.Index == 1 && strings.Contains(w.Expr(e2), "version.Unmarshal") {
+							nParsed++
+						}
+					}
+				}
+			default:
+				nDef, nParsed = -10, -10
+			}
+		}
+		okVer = nDef == 1 && nParsed == 1
+	}
+	c.Check(okVer, "R1.fields", "NewReqParam|client version = declared major.minor or 0.0", w.Pos(lit.Pos()), "default when the message omits it, else version.Unmarshal(declared) with its error checked", "the client version is neither the default nor the checked parse of the declared version")
+	// policy validity inside the force-command parser
+	if pf := w.Func("csr", "parseForceCommand"); pf != nil {
+		c.Saw(pf)
+		pff := w.Facts(pf)
+		for _, r := range w.MayBeNilReturns(pf) {
+			ok := pff.Any(r.Block(), func(l Lit) bool {
+				cv, isCall := l.V.(*ssa.Call)
+				return isCall && l.Pol && strings.HasSuffix(calleeName(cv), "common.ValidNamespacePolicy") && cv.Call.Args[0] == r.Results[0]
+			})
+			c.Check(ok, "R1.fields", "parseForceCommand|policy is one of the defined values", w.Pos(r.Pos()), "must-fact ValidNamespacePolicy(policy)", "a namespace policy outside the defined set can be returned")
+		}
+	}
+
+	// ---- R3 ----
+	if tg := w.Func("csr/transid", "Generate"); tg != nil {
+		c.Saw(tg)
+		okLen, okRand, okFmt := false, false, false
+		var buf ssa.Value
+		for _, call := range callsTo(tg, "crypto/rand.Read") {
+			buf = call.Common().Args[0]
+			okRand = true
+			if sl, ok := buf.(*ssa.Slice); ok {
+				okLen = arrayLen(sl.X.Type()) == 5
+			} else if ms, ok := buf.(*ssa.MakeSlice); ok {
+				k, isK := intConst(ms.Len)
+				okLen = isK && k == 5
+			}
+		}
+		for _, r := range liveReturns(tg) {
+			for _, lf := range w.Leaves(r.Results[0], r) {
+				if cv, ok := lf.Val.(*ssa.Call); ok && calleeName(cv) == "fmt.Sprintf" {
+					if format, ok := strConst(cv.Call.Args[0]); ok && format == "%x" {
+						if sl, ok := cv.Call.Args[1].(*ssa.Slice); ok {
+							if a, ok := sl.X.(*ssa.Alloc); ok {
+								for _, v := range storesInto(a) {
+									if cvv, ok := strip(v).(*ssa.Convert); ok && cvv.X == buf {
+										okFmt = true
+									}
+									if strip(v) == buf {
+										okFmt = true
+									}
+								}
+							}
+						}
+					}
+				}
+			}
+		}
+		c.Check(okRand && okLen, "R3.transid", "transid.Generate|5 bytes of crypto/rand", w.FnPos(tg), "rand.Read(make([]byte,5))", "the transaction id is not 5 bytes read from crypto/rand")
+		c.Check(okFmt, "R3.transid", "transid.Generate|hex of those bytes", w.FnPos(tg), "fmt.Sprintf(\"%x\", bytes) = 10 hex digits", "the transaction id is not the hex form of the random bytes")
+	} else {
+		c.Unresolved("R3.transid", "transid.Generate")
+	}
+
+	// ---- R5 ----
+	if vu := w.Func("sshutils/version", "Unmarshal"); vu != nil {
+		c.Saw(vu)
+		okParse := 0
+		var idx ssa.Value
+		for _, call := range callsTo(vu, "strings.Index") {
+			if s, ok := strConst(call.Common().Args[1]); ok && s == "." && w.Expr(call.Common().Args[0]) == "p0" {
+				idx = call.Value()
+			}
+		}
+		var maj, min ssa.Value
+		for _, call := range callsTo(vu, "strconv.ParseUint") {
+			cv := call.(*ssa.Call)
+			bits, _ := intConst(cv.Call.Args[2])
+			sl, ok := cv.Call.Args[0].(*ssa.Slice)
+			if !ok || bits != 16 || w.Expr(sl.X) != "p0" {
+				continue
+			}
+			if sl.Low == nil && sl.High == idx {
+				maj = extractOf(cv, 0)
+				okParse++
+			}
+			if sl.High == nil && sl.Low != nil {
+				if b, ok := sl.Low.(*ssa.BinOp); ok && b.Op == token.ADD && b.X == idx {
+					if one, ok := intConst(b.Y); ok && one == 1 {
+						min = extractOf(cv, 0)
+						okParse++
+					}
+				}
+			}
+			c.Check(w.ErrEdgeEnds(vu, extractOf(cv, 1)), "R5.version", "version.Unmarshal|"+w.Short(cv.Call.Args[0])+" parse error returned", w.Pos(cv.Pos()), "error edge returns", "a number that does not fit 16 bits is not refused")
+		}
+		c.Check(okParse == 2 && idx != nil, "R5.version", "version.Unmarshal|major = s[:i], minor = s[i+1:], 16 bits", w.FnPos(vu), "ParseUint(s[:i]), ParseUint(s[i+1:])", "major/minor are not parsed from the two sides of the first dot as 16-bit numbers")
+		okNew := false
+		for _, r := range w.MayBeNilReturns(vu) {
+			if cv, ok := r.Results[0].(*ssa.Call); ok && strings.HasSuffix(calleeName(cv), "version.New") && maj != nil && min != nil {
+				a0, ok0 := cv.Call.Args[0].(*ssa.Convert)
+				a1, ok1 := cv.Call.Args[1].(*ssa.Convert)
+				okNew = ok0 && ok1 && a0.X == maj && a1.X == min
+			}
+		}
+		c.Check(okNew, "R5.version", "version.Unmarshal|New(major, minor) in that order", w.FnPos(vu), "New(uint16(major), uint16(minor))", "major and minor are swapped or replaced")
+		if nv := w.Func("sshutils/version", "New"); nv != nil {
+			ok := false
+			for _, a := range allocsOf(nv, "version.Version") {
+				fsv := FieldStores(nv, a)
+				ok = len(fsv["major"]) == 1 && w.Expr(fsv["major"][0]) == "p0" && len(fsv["minor"]) == 1 && w.Expr(fsv["minor"][0]) == "p1"
+			}
+			c.Check(ok, "R5.version", "version.New|fields of the same name", w.FnPos(nv), "major: major, minor: minor", "version.New stores its arguments into the wrong fields")
+		}
+	}
 }
